@@ -185,14 +185,22 @@ def judge(job, res, mline, want_corr=True, kline=None):
     """returns a list of issues: dict(kind='violation'|'corr'|'note', sig, text, case)"""
     issues = []
     log = job['log']
+    opts = {k: job[k] for k in ('pre', 'twin', 'mutate') if job.get(k)}
     late = sorted({m['src'] for m in log} - set(res['avail']))
+    # results handed out by earlier reads must be unchanged after every later read
+    for hi, cj, ci, snap, now in res.get('changed', []):
+        h = job['histories'][hi]
+        issues.append({'kind': 'violation', 'sig': {'kind': 'earlier-result-changed'},
+                       'case': {'log': log, 'history': h[:ci + 1], 'opts': opts, 'earlier_call': cj, 'was': show_impl(snap), 'now': show_impl(now)},
+                       'text': 'the object returned by read(%s) (call %d) was %s when returned and is %s after the later read(%s) (call %d)'
+                               % (short(h[cj]), cj, brief(show_impl(snap))[:300], brief(show_impl(now))[:300], short(h[ci]), ci)})
     for hi, (h, outs) in enumerate(zip(job['histories'], res['hist'])):
         mo = parse_model(mline[hi], len(h)) if mline is not None else None
         ko = parse_model(kline[hi], len(h)) if kline is not None else None
         for ci, (c, o) in enumerate(zip(h, outs)):
             k = json.dumps(c, sort_keys=True)
             f = res['fresh'][k]
-            case = {'log': log, 'history': h[:ci + 1], 'call': short(c), 'impl_after_history': show_impl(o),
+            case = {'log': log, 'history': h[:ci + 1], 'opts': opts, 'call': short(c), 'impl_after_history': show_impl(o),
                     'impl_fresh_loader': show_impl(f)}
             if mo is not None:
                 case.update({'model_after_history': mo[ci]['H'], 'model_fresh_loader': mo[ci]['F'],
@@ -202,9 +210,21 @@ def judge(job, res, mline, want_corr=True, kline=None):
                 differs = 'exception' if ('exc' in o) != ('exc' in f) else \
                     ('messages' if ('exc' in o or messages_by_type(o) != messages_by_type(f)) else 'arrays-or-indices')
                 sig = {'kind': 'cache-not-transparent', 'differs': differs}
+                how = ''
+                if opts.get('mutate'):
+                    sig = {'kind': 'result-aliases-cache', 'mutation': 'element' if opts['mutate'] in ('array-write', 'payload-write') else 'container',
+                           'how': opts['mutate']}
+                    how = ' (the caller changed the objects returned by the earlier reads: %s)' % opts['mutate']
+                elif opts.get('pre'):
+                    sig = {'kind': 'cache-survives-open', 'differs': differs}
+                    how = ' (the loader had read another file before open() of this one)'
+                elif opts.get('twin'):
+                    sig['second_loader_alive'] = True
                 issues.append({'kind': 'violation', 'sig': sig, 'case': case,
-                               'text': 'read(%s) after %d earlier read(s) returns %s; the same call on a freshly opened loader returns %s'
-                                       % (short(c), ci, brief(show_impl(o))[:400], brief(show_impl(f))[:400])})
+                               'text': 'read(%s) after %d earlier read(s)%s returns %s; the same call on a freshly opened loader returns %s'
+                                       % (short(c), ci, how, brief(show_impl(o))[:400], brief(show_impl(f))[:400])})
+                if opts.get('mutate'):
+                    continue
             if mo is None:
                 continue
             # (b) the reader's filtered sequence, first/last N in file order (only judged once per distinct call)
@@ -268,7 +288,7 @@ def evaluate(ctx, model, jobs, tag='j', want_corr=True):
     if want_corr:
         for job, r in zip(jobs, res):
             g = r.get('geom')
-            if not g or 'exc' in g or len(g['off']) != len(job['log']) or any(c['tr'] is not None and c['tr'][2] is False and not any(m['p1'] is not None for m in job['log']) for h in job['histories'] for c in h):
+            if not g or 'exc' in g or len(g['off']) != len(job['log']) or not G.times_nondecreasing(job['log']) or any(c['tr'] is not None and c['tr'][2] is False and not any(m['p1'] is not None for m in job['log']) for h in job['histories'] for c in h):
                 kspans.append(None); continue
             kspans.append((len(klines), len(job['histories'])))
             for h in job['histories']:
@@ -288,7 +308,7 @@ def evaluate(ctx, model, jobs, tag='j', want_corr=True):
 # shrinking
 # ---------------------------------------------------------------------------------------------------------
 
-def shrink(ctx, model, log, history, sig, budget=12):
+def shrink(ctx, model, log, history, sig, budget=12, opts=None):
     """greedy: drop earlier calls, reset arguments to defaults, drop log messages, while a violation with the same
     signature is still reported for the last call"""
     def candidates(log, h):
@@ -318,7 +338,7 @@ def shrink(ctx, model, log, history, sig, budget=12):
         cands = candidates(log, history)
         if not cands:
             break
-        jobs = [{'log': l, 'histories': [h]} for l, h in cands]
+        jobs = [dict(opts or {}, log=l, histories=[h]) for l, h in cands]
         try:
             _, iss = evaluate(ctx, model, jobs, tag='s', want_corr=False)
         except RuntimeError:
@@ -336,7 +356,13 @@ def corpus_jobs():
     jobs = []
     for p in sorted(glob.glob(os.path.join(vf.VERIF, 'corpus', 'C12', '*.json'))):
         c = json.load(open(p))
-        jobs.append({'log': c['log'], 'histories': [[G.call(**x) for x in c['history']]], 'name': os.path.basename(p)})
+        j = {'log': c['log'], 'histories': [[G.call(**x) for x in c['history']]], 'name': os.path.basename(p)}
+        for k in ('twin', 'mutate'):
+            if c.get(k):
+                j[k] = c[k]
+        if c.get('pre'):
+            j['pre'] = {'log': c['pre']['log'], 'calls': [G.call(**x) for x in c['pre']['calls']]}
+        jobs.append(j)
     return jobs
 
 
@@ -362,6 +388,21 @@ def make_jobs(ctx):
             la = la[::2] if lg[1]['p1'] == int(lg[1]['p1']) else la[1::2]
         for i in range(0, len(la), 300):
             jobs.append({'log': lg, 'histories': la[i:i + 300]})
+    # the builders' harness checklist: stale reader filters, extreme maxima, numpy reads that find nothing, alignment
+    # after other types were cached, repeated / out-of-order P1 times
+    inter, dis = G.interleaved_log(), G.disorder_log()
+    for lg in (G.lookalike_log(False), dis):
+        ch = G.checklist_histories(lg)
+        for i in range(0, len(ch), 300):
+            jobs.append({'log': lg, 'histories': ch[i:i + 300]})
+    # what a caller does with returned objects must not reach the cache; a second loader on the same file; a second
+    # file on the same loader
+    basic = [h for h in G.partial_invalidation_histories()[::29]] + [[a, dict(a)] for a in alpha[::2]] + [[a, b, dict(a)] for a, b in zip(alpha[::3], alpha[1::3])]
+    for kind in ('clear', 'append', 'popkey', 'to_numpy', 'align', 'array-write', 'payload-write'):
+        jobs.append({'log': inter, 'histories': basic, 'mutate': kind})
+    jobs.append({'log': inter, 'histories': basic + G.checklist_histories(inter)[::7], 'twin': True})
+    jobs.append({'log': inter, 'histories': basic, 'pre': {'log': fixed, 'calls': [G.call(), G.call(types=['POSE'], num=True, keep=True), G.call(types=['POSE', 'POSE_AUX'], max=2)]}})
+    jobs.append({'log': fixed, 'histories': basic[::2], 'pre': {'log': dis, 'calls': [h[0] for h in basic[:12]]}})
     nlogs, per, L = (160, 120, 5) if ctx.thorough else (48, 50, 3)
     for i in range(nlogs):
         log = G.gen_log(r, late_source=(i % 8 == 7))
@@ -417,8 +458,8 @@ def run(ctx):
             if key not in shrunk and len(shrunk) < 4 and not is_known(i['sig']):
                 shrunk.add(key)
                 try:
-                    l2, h2 = shrink(ctx, model, case['log'], case['history'], i['sig'])
-                    _, iss2 = evaluate(ctx, model, [{'log': l2, 'histories': [h2]}], tag='r', want_corr=False)
+                    l2, h2 = shrink(ctx, model, case['log'], case['history'], i['sig'], opts=case.get('opts'))
+                    _, iss2 = evaluate(ctx, model, [dict(case.get('opts') or {}, log=l2, histories=[h2])], tag='r', want_corr=False)
                     hit = [x for x in iss2[0] if x['kind'] == 'violation' and x['sig'] == i['sig'] and len(x['case']['history']) == len(h2)]
                     if hit:
                         i = hit[0]; case = dict(hit[0]['case']); case['shrunk'] = True
@@ -433,7 +474,7 @@ def run(ctx):
         ctx.sample({'log': [(m['t'], m['p1'], m['src']) for m in j['log']], 'history': [short(c) for c in j['histories'][0]],
                     'impl': [show_impl(o)[:200] for o in res[-1]['hist'][0]]})
     ctx.coverage['rule'] = ('corpus (minimised past failures) first; on the 10-message log of the library\'s own loader test every ordered pair%s over a 40-call alphabet '
-                            '(types x max_messages x numpy/keep_messages, alignment, require_p1_time, in-order); the structured family A ; B ; A (A over a type set S with a maximum of either sign / numpy / alignment, B re-reading a proper subset of S with other parameters, so the second A meets a partially valid cache) on that log and on a 16-message log interleaving four types; pairs of equal-looking argument values (same bounds as relative / absolute range in object, string, tuple and Timestamp form; the same types as list / set / tuple / classes / single value; max_messages N vs -N; no source_ids vs the full set) as A;B, B;A, A;B;A on two logs whose first P1 time is 3 s resp. 2.5 s; then %d generated logs (5-14 messages of 4 types, first P1 time never 0 and often fractional, '
+                            '(types x max_messages x numpy/keep_messages, alignment, require_p1_time, in-order); the structured family A ; B ; A (A over a type set S with a maximum of either sign / numpy / alignment, B re-reading a proper subset of S with other parameters, so the second A meets a partially valid cache) on that log and on a 16-message log interleaving four types; pairs of equal-looking argument values (same bounds as relative / absolute range in object, string, tuple and Timestamp form; the same types as list / set / tuple / classes / single value; max_messages N vs -N; no source_ids vs the full set) as A;B, B;A, A;B;A on two logs whose first P1 time is 3 s resp. 2.5 s; the checklist shapes (narrow read then a read whose limit must not see the stale filtered index; maxima 0 and |N| >= matches with require_p1_time / require_system_time; numpy reads finding messages then none; aligned reads after other types were cached; single-type aligned vs unaligned) also on a log with repeated and out-of-order P1 times; every result handed out earlier is re-canonicalised after each later read; jobs in which the caller mutates returned objects (7 kinds), a second loader reads the same file in between, or the loader had read another file before open(); then %d generated logs (5-14 messages of 4 types, first P1 time never 0 and often fractional, '
                             'invalid P1 stamps, 1-2 source ids; every 8th log has 24-30 messages and a source id first seen after the reader\'s sampling window) x %d histories '
                             'of 2..%d read() calls whose later calls are mostly one-argument mutations of earlier ones (so cache keys collide; 30%% of the histories of length >= 3 are random members of the A ; B ; A family). Every call of every history is '
                             'compared with the same call on a fresh loader (SPEC oracle), with the extracted MODEL (after the same history, and fresh) and its messages with the '
@@ -463,7 +504,7 @@ def replay(ctx, rec):
         print(json.dumps(rec, indent=1)[:3000]); return 0
     model = vf.build_extracted('c12', 'C12', 'c12_driver.ml')
     h = [G.call(**c) for c in case['history']]
-    res, issues = evaluate(ctx, model, [{'log': case['log'], 'histories': [h]}], tag='p')
+    res, issues = evaluate(ctx, model, [dict(case.get('opts') or {}, log=case['log'], histories=[h])], tag='p')
     r = res[0]
     line = model_line(case['log'], r['avail'], r['tt'], r['nn'], h)
     mo = parse_model(vf.run_lines(model, [line])[1][0], len(h))
